@@ -55,7 +55,7 @@ PROBES = ['pop_client', 'pop_server', 'pop_attrs', 'replies_reordered',
           'bad_reply_short_body', 'bad_reply_extra_body',
           'malformed_request', 'unsupported_request', 'errno_mapped',
           'v3', 'v4', 'v5', 'v6', 'realpath_without_control_byte',
-          'init_below_v3']
+          'init_below_v3', 'time_before_1970']
 
 ERRNOS = ['ENOENT', 'EACCES', 'EEXIST', 'EROFS', 'ENOSPC', 'EDQUOT',
           'ENOTEMPTY', 'ENOTDIR', 'ENAMETOOLONG', 'ELOOP', 'EINVAL',
@@ -133,9 +133,11 @@ def gen_plan(rng):
 
         for name, vals in (('size', [0, 1, 1 << 40]),
                            ('permissions', [0o100644, 0o040755, 0o120777]),
-                           ('atime', [0, 1, 1 << 31] +
+                           # (a time before 1970: the v4+ fields are signed;
+                           # v3 cannot carry it, but must not fail on it)
+                           ('atime', [0, 1, 1 << 31, -86400] +
                             ([1 << 33] if plan['version'] > 3 else [])),
-                           ('mtime', [0, 5, (1 << 32) - 1] +
+                           ('mtime', [0, 5, (1 << 32) - 1, -1] +
                             ([1 << 32] if plan['version'] > 3 else [])),
                            ('atime_ns', [0, 999999999]),
                            ('mtime_ns', [1, 123456789]),
@@ -713,6 +715,17 @@ def run_attrs(world, plan):
                     pass
 
                 have = getattr(got, f, None)
+
+                if ver == 3 and f in ('atime', 'mtime') and \
+                        isinstance(want, int) and want < 0:
+                    # not representable in 32 unsigned bits: any value the
+                    # field can hold will do, as long as the exchange works
+                    sim.probes['time_before_1970'] += 1
+                    continue
+
+                if f in ('atime', 'mtime') and isinstance(want, int) and \
+                        want < 0:
+                    sim.probes['time_before_1970'] += 1
 
                 if f == 'permissions' and ver >= 4 and want is not None \
                         and have is not None:
